@@ -14,8 +14,12 @@ m = json.load(open(os.path.join(HERE, 'MANIFEST.json')))
 checks = []
 na = []
 served = []
+EXCLUDE = set(sys.argv[1:])
 for p in props:
     pid = p['id']
+    if pid in EXCLUDE:
+        na.append({'property_id': pid, 'reason': 'check under construction in this session; planned per DESIGN.md section 3'})
+        continue
     try:
         mod = importlib.import_module('sv.props.%s' % pid.lower())
     except ImportError as e:
